@@ -7,8 +7,6 @@ import (
 	"strings"
 	"unicode"
 
-	"github.com/rivo/uniseg"
-
 	"github.com/reeflective/readline/inputrc"
 	"github.com/reeflective/readline/internal/color"
 	"github.com/reeflective/readline/internal/completion"
@@ -437,7 +435,7 @@ func (rl *Shell) selfInsert() {
 
 	if rl.Config.GetBool("output-meta") && key[0] != inputrc.Esc {
 		quoted = append(quoted, key[0])
-		length = uniseg.StringWidth(string(quoted))
+		length = len(quoted)
 	} else {
 		quoted, length = strutil.Quote(key[0])
 	}
